@@ -4,7 +4,7 @@
   a governance message from a signer other than the authority fails, and a failed message changes no state.
 -/
 import AllianceProofs
-import Generated.Arith
+import Generated.Tables
 import Generated.Facts
 namespace Alliance
 namespace C16
